@@ -135,6 +135,12 @@ def lean_sources(modules):
 def run_driver(name, lines, timeout=3000):
     """pipe operation lines through drivers/<name>.lean; returns the output lines"""
     inp = "\n".join(lines) + "\n"
+    if name not in _DRIVER_BUILT:  # the driver is interpreted; the modules it imports must be compiled
+        imps = re.findall(r"^import (IbicusModel\.\S+)", open(os.path.join(LEAN, "drivers", name + ".lean")).read(), re.M)
+        okb, logb = lake_build(imps)
+        if not okb:
+            raise DriverError(f"driver {name}: imports do not build: {logb[-400:]}")
+        _DRIVER_BUILT.add(name)
     with open(LOCK, "w") as lk:
         fcntl.flock(lk, fcntl.LOCK_SH)
         rc, out = _run(["lake", "env", "lean", "--run", os.path.join("drivers", name + ".lean")], inp=inp, timeout=timeout)
@@ -148,6 +154,9 @@ def run_driver(name, lines, timeout=3000):
 
 class DriverError(Exception):
     pass
+
+
+_DRIVER_BUILT = set()
 
 
 # ---------------------------------------------------------------------------- encoding
